@@ -369,6 +369,7 @@ def _commutes_rules(ctx, repo):
     _phased_xz_canonical(ctx, repo)
     period_soundness_rule(ctx, 'C08.o')
     _predicates_compare_values(ctx, repo)
+    _interchangeable_means_symmetric(ctx, repo)
     shared.qudit_blind_dispatch_rule(ctx, 'C08.p', ['cirq-core/cirq/ops/', 'cirq-core/cirq/protocols/', 'cirq-google/', 'cirq-aqt/', 'cirq-ionq/', 'cirq-pasqal/'], floor=6)
     ctx.decided.append('C08.p code that recognises X/Z power gates by class looks at their dimension or is tabled as unreachable for qudits')
     ctx.decided.append('C08.o exponent periods used for canonicalisation are multiples of every eigenphase period (PhasedXPowGate._period and the EigenGate helper, interpreted on a rational grid of shifts)')
@@ -842,3 +843,75 @@ def _predicates_compare_values(ctx, repo):
                    ci.mod.rel, bad.lineno if bad is not None else fn.lineno)
     if n == 0:
         raise AnalysisError('C08.q: no predicate methods found')
+
+
+def _interchangeable_means_symmetric(ctx, repo):
+    """C08.r - qubits a gate declares interchangeable can be exchanged without changing its matrix."""
+    import itertools
+    import math
+    from . import c03
+    ctx.decided.append('C08.r qubit_index_to_equivalence_group_key (on which equality of gate operations with permuted qubits rests): qubits given the same key can be exchanged without '
+                       'changing the matrix - PhasedFSimGate interpreted on a grid of (theta, zeta, chi) incl. the special angles, the three-qubit controlled families on their tables')
+    ctx.rule('C08.r', 'declared interchangeable => really interchangeable: interpreting qubit_index_to_equivalence_group_key for every qubit index, whenever two indices get the same key '
+             'the gate matrix (closed form / eigen-table of C03) is invariant under exchanging those two qubits - otherwise g.on(a, b) == g.on(b, a) holds for operations with '
+             'different matrices', floor=60, style='FDX')
+
+    def swap_perm(n, i, j):
+        dim = 2 ** n
+        P = np.zeros((dim, dim))
+        for k in range(dim):
+            bits = [(k >> (n - 1 - t)) & 1 for t in range(n)]
+            bits[i], bits[j] = bits[j], bits[i]
+            P[sum(b << (n - 1 - t) for t, b in enumerate(bits)), k] = 1
+        return P
+
+    def keys_of(ci, fn, self_obj, n):
+        out = []
+        for idx in range(n):
+            it = fdx.NumInterp({'self': self_obj, 'index': idx})
+            it.globals = {'sympy': {'pi': math.pi}}
+            it.methods = {mn: f_ for c_ in repo.mro(ci) for mn, f_ in c_.methods.items()}
+            it.resolver = c03.make_resolver(repo, ci.mod, fn)
+            params = [a.arg for a in fn.args.args]
+            it.env[params[1]] = idx
+            try:
+                out.append(it.call(fn))
+            except (fdx.Unsupported, fdx.Raised) as ex:
+                raise AnalysisError(f'{ci.qual}.qubit_index_to_equivalence_group_key is outside the interpretable subset: {ex}')
+        return out
+    # PhasedFSimGate
+    ci = repo.cls('cirq.ops.fsim_gate.PhasedFSimGate')
+    fn = ci.methods.get('qubit_index_to_equivalence_group_key')
+    if fn is None:
+        raise AnalysisError('PhasedFSimGate.qubit_index_to_equivalence_group_key vanished')
+    ref = c03.PARAMETRIC['cirq.ops.fsim_gate.PhasedFSimGate'][1]
+    P = swap_perm(2, 0, 1)
+    thetas = (0.0, math.pi / 2, -math.pi / 2, -math.pi, 1.0, math.pi / 3)
+    phases = (0.0, -math.pi, 0.3, 1.1)
+    for th, ze, ch in itertools.product(thetas, phases, phases):
+        so = {'theta': th, 'zeta': ze, 'chi': ch, 'gamma': 0.2, 'phi': 0.4}
+        so.update({'_' + k: v for k, v in list(so.items())})
+        k0, k1 = keys_of(ci, fn, so, 2)
+        U = np.array(ref(th, ze, ch, 0.2, 0.4), dtype=complex)
+        sym = np.allclose(P @ U @ P, U, atol=1e-9)
+        ok = (k0 != k1) or sym
+        ctx.ob('C08.r', f'{ci.qual}:theta={th:.3f}:zeta={ze:.3f}:chi={ch:.3f}', ok, '' if ok else
+               f'PhasedFSimGate(theta={th:.3f}, zeta={ze:.3f}, chi={ch:.3f}) declares its two qubits interchangeable, but exchanging them changes the matrix: g.on(a, b) == g.on(b, a) '
+               'although the two operations differ', ci.mod.rel, fn.lineno, construct=f'{ci.qual}.qubit_index_to_equivalence_group_key')
+    # table-defined three-qubit families
+    for cq in ('cirq.ops.three_qubit_gates.CCZPowGate', 'cirq.ops.three_qubit_gates.CCXPowGate'):
+        ci3 = repo.cls(cq)
+        fn3 = ci3.methods.get('qubit_index_to_equivalence_group_key')
+        if fn3 is None:
+            continue
+        comps, _ = c03._components(repo, ci3, None)
+        for e in (1.0, 0.5, 0.3):
+            U = sum(np.exp(1j * np.pi * e * t) * m for t, m in comps)
+            ks = keys_of(ci3, fn3, {'_exponent': e, 'exponent': e, '_global_shift': 0.0}, 3)
+            for i, j in itertools.combinations(range(3), 2):
+                Pij = swap_perm(3, i, j)
+                sym = np.allclose(Pij @ U @ Pij, U, atol=1e-9)
+                ok = (ks[i] != ks[j]) or sym
+                ctx.ob('C08.r', f'{cq}:e={e}:swap({i},{j})', ok, '' if ok else
+                       f'{ci3.name}**{e} gives qubits {i} and {j} the same key, but exchanging them changes the matrix', ci3.mod.rel, fn3.lineno,
+                       construct=f'{cq}.qubit_index_to_equivalence_group_key')
